@@ -341,6 +341,12 @@ def f(x: FLOAT[...], c: BOOL, flag: bool = False):
     return z
 ''', ["x:F:2 c:B:"], [{}, {"flag": True}])
 
+P("mod_operator_float_literal_on_int_tensor", '''
+@script()
+def f(n: INT64[...], x: FLOAT[...]):
+    return n % 2.0, n % 3, x % 2.0, x % 1.5
+''', ["n:I:3 x:F:3"])
+
 P("same_named_subfunctions_in_two_domains", '''
 from onnxscript.values import Opset
 
